@@ -184,6 +184,14 @@ type c19Step struct {
 	BodyName string `json:"body_name,omitempty"`
 	// sso: the request names no assertion consumer endpoint (the IdP picks among the registered ones)
 	NoACS bool `json:"no_acs_in_request,omitempty"`
+	// put_service: 1 = this name registers SP 0/1 with other metadata under the same entity ID: its only endpoint is .../saml/acs-b
+	// (a request naming .../saml/acs is then not for a registered endpoint). With both variants stored under different names, which one
+	// is served is the server's choice - but the same choice after a restart.
+	Variant int `json:"metadata_variant,omitempty"`
+	// Also > 0: the uploaded document is an EntitiesDescriptor (a federation aggregate): an entity without a service-provider
+	// role, then SP, then provider (SP+Also) mod n. One service holds one provider: the first one with the role (what
+	// GET /services/<name> shows afterwards); the others are merely mentioned.
+	Also int `json:"also_describes,omitempty"`
 }
 
 // c19Password is the password a put/seed step sets. "set72" is exactly as long as bcrypt reads (72 bytes), "set100" longer
@@ -254,7 +262,7 @@ func genC19(g *Rng, tier string) *Plan {
 		case 1:
 			st = c19Step{Op: "delete_user", User: Pick(g, c19Users...)}
 		case 2:
-			st = c19Step{Op: "put_service", Svc: Pick(g, c19Svcs...), SP: g.Intn(c19NSP), Bad: g.Bool(0.05)}
+			st = c19Step{Op: "put_service", Svc: Pick(g, c19Svcs...), SP: g.Intn(c19NSP), Bad: g.Bool(0.05), Variant: g.PickW(3, 1), Also: g.PickW(5, 1, 1)}
 		case 3:
 			st = c19Step{Op: "delete_service", Svc: Pick(g, c19Svcs...)}
 		case 4:
@@ -309,6 +317,22 @@ func genC19(g *Rng, tier string) *Plan {
 			c19Step{Op: "put_user", User: u, Pw: "", Ver: ver, Omit: Pick(g, "groups", "names", "groups+names")},
 			c19Step{Op: "login", User: u, Pw: "right"},
 			c19Step{Op: "sso", SP: 0, Cookie: "slot", Slot: -1, Bind: Pick(g, "redirect", "post")})
+	}
+	if g.Bool(0.15) {
+		// targeted: two names register one entity ID with different metadata, in either order; then the provider asks for a login
+		u := Pick(g, c19Users...)
+		ver++
+		first, second := "s2", "s0"
+		if g.Bool(0.5) {
+			first, second = second, first
+		}
+		v := g.Intn(2)
+		steps = append(steps, c19Step{Op: "seed_user", User: u, Pw: "set", Ver: ver},
+			c19Step{Op: "put_service", Svc: first, SP: 1, Variant: v}, c19Step{Op: "put_service", Svc: second, SP: 1, Variant: 1 - v},
+			c19Step{Op: "login", User: u, Pw: "right"},
+			c19Step{Op: "sso", SP: 1, Cookie: "slot", Slot: -1, Bind: "redirect"},
+			c19Step{Op: Pick(g, "delete_service", "put_service"), Svc: Pick(g, first, second), SP: 1, Variant: g.Intn(2)},
+			c19Step{Op: "sso", SP: 1, Cookie: "slot", Slot: -1, Bind: "redirect"})
 	}
 	if g.Bool(0.15) {
 		// targeted: a provider with two endpoints is used IdP-initiated and then by a request that names no endpoint; every later
@@ -437,11 +461,38 @@ func c19SPBase(i int) string { return fmt.Sprintf("https://sp%d.example.com", i)
 
 func (w *c19World) registered(sp int) bool {
 	for _, v := range w.services {
-		if v == sp {
+		if v%10 == sp {
 			return true
 		}
 	}
 	return false
+}
+
+// variants reports which metadata variants the stored services carry for SP sp (services values are sp + 10*variant).
+func (w *c19World) variants(sp int) (std, other bool) {
+	for _, v := range w.services {
+		if v%10 == sp {
+			if v/10 == 0 {
+				std = true
+			} else {
+				other = true
+			}
+		}
+	}
+	return
+}
+
+// idpInitACS is where an unsolicited response for sp goes: the default endpoint of whichever of the
+// stored metadata documents for that entity ID is being served ("*": the statement does not say which).
+func (w *c19World) idpInitACS(sp int) string {
+	std, other := w.variants(sp)
+	switch {
+	case sp == 2, other && (std || w.maybeReg[sp]):
+		return "*"
+	case other:
+		return c19ACS(sp) + "-b"
+	}
+	return c19ACS(sp)
 }
 
 // markAmbiguous records that a service change was interrupted by a store fault and answered with an
@@ -552,6 +603,9 @@ func (w *c19World) credsValid(user, pw string) bool {
 type c19Outcome struct {
 	Class  string // OK ERROR LOGIN_FORM SESSION ASSERTION LIST BAD_REQUEST
 	Detail string // ASSERTION: "user-marker|sp|acs|relay"; LIST/GET: content class
+	// Alt (expectations only): another outcome class the configuration leaves open (two stored services carry one entity ID with
+	// different metadata: which one is served is the server's choice)
+	Alt string
 }
 
 func (o c19Outcome) String() string {
@@ -576,13 +630,6 @@ func c19ACS(sp int) string {
 }
 
 // c19IdPInitACS: where an IdP-initiated login for SP i must end up ("*": any of its registered POST endpoints).
-func c19IdPInitACS(sp int) string {
-	if sp == 2 {
-		return "*"
-	}
-	return c19ACS(sp)
-}
-
 func c19AssertionDetailAt(a c19Attrs, sp int, relay, acs string) string {
 	return fmt.Sprintf("%s groups=%s -> sp%d acs=%s relay=%q", a.Email+"/"+a.Name+"/"+a.CN+"/"+a.SN+"/"+a.GN, strings.Join(a.Groups, "+"), sp, acs, relay)
 }
@@ -591,6 +638,12 @@ var c19ACSRe = regexp.MustCompile(` acs=\S+ `)
 
 // c19Matches: equal, or equal up to the endpoint where the expectation leaves it open (and the observed one belongs to that SP).
 func c19Matches(obs, exp c19Outcome) bool {
+	if exp.Alt != "" {
+		if obs.Class == exp.Alt && (exp.Alt == "ERROR" || exp.Alt == "LOGIN_FORM") {
+			return true
+		}
+		exp.Alt = ""
+	}
 	if obs == exp {
 		return true
 	}
@@ -709,6 +762,9 @@ func (w *c19World) step(st c19Step, res *Result) (expected, observed c19Outcome,
 		expected = c19Outcome{Class: "ERROR"}
 		if !st.Bad {
 			md := w.sps[st.SP].Metadata()
+			if st.Variant == 1 && st.SP != 2 {
+				md.SPSSODescriptors[0].AssertionConsumerServices = []saml.IndexedEndpoint{{Binding: saml.HTTPPostBinding, Location: c19SPBase(st.SP) + "/saml/acs-b", Index: 1}}
+			}
 			if st.SP == 2 {
 				d := &md.SPSSODescriptors[0]
 				d.AssertionConsumerServices = []saml.IndexedEndpoint{
@@ -716,7 +772,17 @@ func (w *c19World) step(st c19Step, res *Result) (expected, observed c19Outcome,
 					{Binding: saml.HTTPPostBinding, Location: c19SPBase(2) + "/saml/acs-zero", Index: 0},
 				}
 			}
-			b, err := xml.Marshal(md)
+			var doc any = md
+			if st.Also > 0 {
+				if res != nil {
+					res.probe("c19-aggregate-document")
+				}
+				name := "aggregate"
+				doc = &saml.EntitiesDescriptor{Name: &name, EntityDescriptors: []saml.EntityDescriptor{
+					{EntityID: "https://idp.example.org/other", IDPSSODescriptors: []saml.IDPSSODescriptor{{}}},
+					*md, *w.sps[(st.SP+st.Also)%c19NSP].Metadata()}}
+			}
+			b, err := xml.Marshal(doc)
 			if err != nil {
 				panic(err)
 			}
@@ -727,11 +793,14 @@ func (w *c19World) step(st c19Step, res *Result) (expected, observed c19Outcome,
 		rep = deliver(w.srv, "PUT", base+key, body, "", nil)
 		if !st.Bad && w.applied(key, prev, before) {
 			w.services[st.Svc] = st.SP
+			if st.Variant == 1 && st.SP != 2 {
+				w.services[st.Svc] = st.SP + 10
+			}
 		}
 		if w.store.fired != before {
 			w.markAmbiguous(st.SP)
 			if hadOld {
-				w.markAmbiguous(oldSP)
+				w.markAmbiguous(oldSP % 10)
 			}
 		}
 	case "delete_service":
@@ -740,7 +809,7 @@ func (w *c19World) step(st c19Step, res *Result) (expected, observed c19Outcome,
 		oldSP, present := w.services[st.Svc]
 		rep = deliver(w.srv, "DELETE", base+key, "", "", nil)
 		if present && w.store.fired != before {
-			w.markAmbiguous(oldSP)
+			w.markAmbiguous(oldSP % 10)
 		}
 		expected = c19Outcome{Class: "OK"}
 		if !present {
@@ -860,6 +929,14 @@ func (w *c19World) step(st c19Step, res *Result) (expected, observed c19Outcome,
 				expected = c19Outcome{Class: "LOGIN_FORM"}
 			}
 		}
+		if std, other := w.variants(st.SP); other && !st.NoACS && w.registered(st.SP) {
+			// the request names .../saml/acs, which the other metadata variant does not list: refused before anybody is asked to log in
+			if !std && !w.maybeReg[st.SP] {
+				expected, dc = c19Outcome{Class: "ERROR"}, false
+			} else if expected.Class != "ERROR" {
+				expected.Alt = "ERROR" // both variants stored, or a change of this provider's services was interrupted: either reading
+			}
+		}
 	case "shortcut":
 		var cookies []*http.Cookie
 		sess, cv := w.liveSession(st)
@@ -885,7 +962,7 @@ func (w *c19World) step(st c19Step, res *Result) (expected, observed c19Outcome,
 		}
 		w.lastAlt = c19Outcome{}
 		if ok && w.sessState(sess) != 2 && !w.registered(sc.SP) && w.maybeReg[sc.SP] {
-			w.lastAlt = c19Outcome{Class: "ASSERTION", Detail: c19AssertionDetailAt(sess.Snap, sc.SP, relay, c19IdPInitACS(sc.SP))}
+			w.lastAlt = c19Outcome{Class: "ASSERTION", Detail: c19AssertionDetailAt(sess.Snap, sc.SP, relay, w.idpInitACS(sc.SP))}
 		}
 		switch {
 		case !ok:
@@ -896,7 +973,7 @@ func (w *c19World) step(st c19Step, res *Result) (expected, observed c19Outcome,
 			expected = c19Outcome{Class: "ERROR"}
 		default:
 			dc = w.sessState(sess) == 1
-			expected = c19Outcome{Class: "ASSERTION", Detail: c19AssertionDetailAt(sess.Snap, sc.SP, relay, c19IdPInitACS(sc.SP))}
+			expected = c19Outcome{Class: "ASSERTION", Detail: c19AssertionDetailAt(sess.Snap, sc.SP, relay, w.idpInitACS(sc.SP))}
 		}
 	case "list_users", "list_sessions", "list_services", "list_shortcuts":
 		kind := strings.TrimPrefix(st.Op, "list_")
@@ -930,7 +1007,7 @@ func (w *c19World) step(st c19Step, res *Result) (expected, observed c19Outcome,
 	case "get_service":
 		rep = deliver(w.srv, "GET", base+"/services/"+st.Svc, "", "", nil)
 		if sp, ok := w.services[st.Svc]; ok {
-			expected = c19Outcome{Class: "LIST", Detail: c19SPBase(sp) + "/saml/metadata"}
+			expected = c19Outcome{Class: "LIST", Detail: c19SPBase(sp%10) + "/saml/metadata"}
 		} else {
 			expected = c19Outcome{Class: "ERROR"}
 		}
